@@ -179,6 +179,11 @@ def _stride_idiom(fn: ast.AST):
             elif isinstance(a, ast.Call) and (dotted(a.func) or "").split(".")[-1] in ("concatenate", "hstack", "append") and a.args:
                 inner = a.args[0]
                 parts = list(inner.elts) if isinstance(inner, (ast.Tuple, ast.List)) else list(a.args)
+            elif isinstance(a, (ast.Tuple, ast.List)) and len(a.elts) == 2 and isinstance(a.elts[1], ast.Starred):
+                parts = [ast.Tuple(elts=[a.elts[0]], ctx=ast.Load()), a.elts[1].value]          # (1, *shape[:-1])
+            elif isinstance(a, ast.Call) and (dotted(a.func) or "").split(".")[-1] in ("array", "asarray", "tuple", "list") and a.args \
+                    and isinstance(a.args[0], (ast.Tuple, ast.List)) and len(a.args[0].elts) == 2 and isinstance(a.args[0].elts[1], ast.Starred):
+                parts = [ast.Tuple(elts=[a.args[0].elts[0]], ctx=ast.Load()), a.args[0].elts[1].value]
             if len(parts) != 2:
                 continue
             one, sl = parts
